@@ -78,6 +78,24 @@ func checkSpec(ctx *Ctx, id string) {
 				extra = append(extra, g(r))
 			}
 		}
+		// families: the same numeric base under every marker spelling of the ecosystem (so that
+		// alias spellings such as pypi c/rc, maven a/alpha, cr/rc meet each other in the pool)
+		if sh := numShapes[name]; sh != nil {
+			for f := 0; f < 6; f++ {
+				ar := sh.Arities[r.Intn(len(sh.Arities))]
+				parts := make([]string, ar)
+				for i := range parts {
+					parts[i] = r.Pick([]string{"0", "1", "2", "3", "10"})
+				}
+				base := sh.Prefix + strings.Join(parts, ".")
+				extra = append(extra, base)
+				for _, tpl := range append(append([]string{}, sh.Pre...), sh.Post...) {
+					for _, k := range []string{"1", "2"} {
+						extra = append(extra, base+strings.ReplaceAll(strings.ReplaceAll(tpl, "%k", k), "%K", k))
+					}
+				}
+			}
+		}
 		p, cands := BuildPool(e, r, n+len(extra)/2, extra)
 		// reference validity
 		var reqs []string
